@@ -125,12 +125,28 @@ class HoldProc(_Base):
         self.out('final', self.inputs.n)
 
 
+class Unsavable(OutProc):
+    """a process whose state cannot be persisted (its inputs hold a lock): a launch or create task asked to persist it cannot be
+    honoured, and must then not run it either"""
+
+    @classmethod
+    def define(cls, spec):
+        super().define(spec)
+        spec.inputs.dynamic = True
+
+    def __init__(self, inputs=None, **kwargs):
+        import threading
+        inputs = dict(inputs or {})
+        inputs['lock'] = threading.Lock()
+        super().__init__(inputs=inputs, **kwargs)
+
+
 class BadCtor(_Base):
     def __init__(self, *args, **kwargs):
         raise RuntimeError('constructor refused')
 
 
-CLASSES = {c.__name__: c for c in (OutProc, OutAlt, RaiseProc, StepsProc, WaitProc, HoldProc, BadCtor)}
+CLASSES = {c.__name__: c for c in (OutProc, OutAlt, RaiseProc, StepsProc, WaitProc, HoldProc, BadCtor, Unsavable)}
 # short class token of the line protocol <-> class
 TOKENS = {'Out': OutProc, 'Alt': OutAlt, 'Raise': RaiseProc, 'Steps': StepsProc, 'Wait': WaitProc, 'Hold': HoldProc,
           'Bad': BadCtor}
